@@ -11,10 +11,10 @@ LEVEL = 'other'
 EXPLANATION = (
     'CrossHair (symbolic execution with z3) runs the real HailType._convert_to_json_na, a pure-Python stand-in for the '
     'JSON text step, and the real _convert_from_json_na on values built from symbolic scalars, one condition per Hail '
-    'type of a catalogue to depth 2 (every constructor over every primitive at depth 1; 16 depth-2 shapes in quick, '
-    'every constructor over six depth-1 composites in thorough). Symbolic: 64-bit integers, reals + explicit NaN/+inf/-inf '
-    'selector, booleans, a missingness flag at every position, collection lengths 0..2, call ploidy/phase/alleles, locus '
-    'contig/position, interval bounds. Only "Confirmed over all paths" discharges. Equality is structural with NaN == NaN, '
+    'type of a catalogue to depth 2 (quick: 21 types incl. 2 depth-2 shapes; thorough: every constructor over every '
+    'primitive at depth 1 and 16 depth-2 shapes, 69 types). Symbolic: 64-bit integers, reals + explicit NaN/+inf/-inf '
+    'selector, booleans, missingness flags, collection lengths 0..2, call ploidy/phase (alleles chosen from {0,1,999}), locus '
+    'contig/position, interval bounds; positions draw from a small shared pool of symbolic scalars. Only "Confirmed over all paths" discharges. Equality is structural with NaN == NaN, '
     'missing == missing and the type\'s own one-level typecheck at every level. Values with missing dict VALUES are a '
     'separate obligation per dict-containing type (finding class dict-missing-value-json).'
 )
@@ -37,9 +37,10 @@ def run(R):
     cat = H.catalogue(R.tier)
     H.TYPES[:] = cat
     encode_sources(R)
-    pct = 120 if R.tier == 'quick' else 900
-    R.bounds = {'types': f'{len(cat)} types, depth <= 2', 'collections': 'length 0..2', 'ints': '64-bit range',
-                'floats': 'CrossHair reals + NaN, +inf, -inf as explicit cases', 'strings': 'symbolic choice among 6 fixed strings',
+    pct = 120 if R.tier == 'quick' else 400
+    R.bounds = {'types': f'{len(cat)} types, depth <= 2', 'collections': 'length 0..2 (two length variables; the second <= 1 in quick)', 'ints': '32/64-bit ranges',
+                'floats': 'CrossHair reals + NaN, +inf, -inf as explicit cases', 'strings': 'symbolic choice among 3 fixed strings',
+                'calls': 'ploidy 0..2, phasing symbolic, alleles chosen from {0,1,999}', 'pool': 'positions of a value share a small pool of symbolic scalars',
                 'ndarray': 'symbolic choice among concrete numpy arrays (C and F order, 1-3 dims); numeric element types only',
                 'per_condition_timeout_s': pct}
     R.assume('json.dumps/json.loads (C functions) are replaced by harness.C32_json.wire: tuples -> lists, JSON types only, '
